@@ -577,6 +577,96 @@ def shape_cases():
     return cases
 
 
+# ------------------------------------------------------------------ default values and keyword arguments (enumerated)
+# Functions with 0, 1 or 2 trailing parameters that have DEFAULT values, called with positional, keyword (`b == 10`)
+# and omitted arguments.  Neither the oracle's mutants nor shape_cases know these call forms.  Every ill-typed call
+# has a well-typed twin whose value is known; the twin must compile AND print that value under -ginterp.
+D_DEFS = {
+    "plain": ["fd0(a: MI, b: MI): MI == a + b;\n",
+              "fd1(a: MI, b: MI == 2): MI == a + b;\n",
+              "fd2(a: MI, b: MI == 2, c: MI == 30): MI == a + b + c;\n",
+              'fds(a: MI, s: String == "xy"): MI == a + (# s);\n'],
+    "domain-export": ["DomD: with {\n    fd0: (a: MI, b: MI) -> MI;\n    fd1: (a: MI, b: MI == 2) -> MI;\n"
+                      "    fd2: (a: MI, b: MI == 2, c: MI == 30) -> MI;\n    fds: (a: MI, s: String == \"xy\") -> MI;\n} == add {\n"
+                      "    fd0(a: MI, b: MI): MI == a + b;\n    fd1(a: MI, b: MI == 2): MI == a + b;\n"
+                      "    fd2(a: MI, b: MI == 2, c: MI == 30): MI == a + b + c;\n"
+                      '    fds(a: MI, s: String == "xy"): MI == a + (# s);\n};\n', "import from DomD;\n"],
+}
+# (fault class, function, ill-typed call, well-typed twin call, value of the twin)
+D_CALLS = [
+    # --- unknown keyword, with and without defaulted parameters present
+    ("unknown-keyword/no-default", "fd0", "fd0(1, bb == 2)", "fd0(1, b == 2)", 3),
+    ("unknown-keyword/no-default", "fd0", "fd0(aa == 1, b == 2)", "fd0(a == 1, b == 2)", 3),
+    ("unknown-keyword/1-default", "fd1", "fd1(1, bb == 10)", "fd1(1, b == 10)", 11),
+    ("unknown-keyword/1-default", "fd1", "fd1(aa == 1)", "fd1(a == 1)", 3),
+    ("unknown-keyword/2-defaults", "fd2", "fd2(1, bb == 10)", "fd2(1, b == 10)", 41),
+    ("unknown-keyword/2-defaults", "fd2", "fd2(1, 5, cc == 7)", "fd2(1, 5, c == 7)", 13),
+    ("unknown-keyword/2-defaults", "fd2", "fd2(1, b == 5, cc == 7)", "fd2(1, b == 5, c == 7)", 13),
+    ("unknown-keyword/2-defaults", "fd2", "fd2(1, cc == 7, b == 5)", "fd2(1, c == 7, b == 5)", 13),
+    # --- keyword given twice
+    ("keyword-twice", "fd1", "fd1(1, b == 5, b == 6)", "fd1(1, b == 5)", 6),
+    ("keyword-twice", "fd2", "fd2(1, c == 5, c == 6)", "fd2(1, c == 5)", 8),
+    ("keyword-twice", "fd2", "fd2(1, b == 5, c == 6, b == 7)", "fd2(1, b == 5, c == 6)", 12),
+    ("keyword-twice", "fd0", "fd0(1, b == 2, b == 3)", "fd0(1, b == 2)", 3),
+    # --- keyword naming a parameter that is also given positionally
+    ("keyword-and-positional", "fd1", "fd1(1, a == 4)", "fd1(1, b == 4)", 5),
+    ("keyword-and-positional", "fd1", "fd1(1, 5, b == 6)", "fd1(1, 5)", 6),
+    ("keyword-and-positional", "fd2", "fd2(1, 5, b == 6)", "fd2(1, 5, c == 6)", 12),
+    ("keyword-and-positional", "fd2", "fd2(1, 5, 7, c == 6)", "fd2(1, 5, 7)", 13),
+    ("keyword-and-positional", "fd0", "fd0(1, 2, b == 3)", "fd0(1, 2)", 3),
+    ("keyword-and-positional", "fd0", "fd0(1, a == 2)", "fd0(1, b == 2)", 3),
+    # --- too many positional arguments when k parameters are defaulted
+    ("too-many-positional/1-default", "fd1", "fd1(1, 2, 3)", "fd1(1, 2)", 3),
+    ("too-many-positional/1-default", "fd1", "fd1(1, 2, 3, 4)", "fd1(1, 2)", 3),
+    ("too-many-positional/2-defaults", "fd2", "fd2(1, 2, 3, 4)", "fd2(1, 2, 3)", 6),
+    ("too-many-positional/2-defaults", "fd2", "fd2(1, 2, 3, 4, 5)", "fd2(1, 2, 3)", 6),
+    ("too-many-positional/no-default", "fd0", "fd0(1, 2, 3)", "fd0(1, 2)", 3),
+    ("too-many-positional/with-keyword", "fd2", "fd2(1, 2, 3, c == 4)", "fd2(1, 2, c == 4)", 7),
+    # --- keyword argument of the wrong type
+    ("keyword-of-wrong-type", "fd1", 'fd1(1, b == "s")', "fd1(1, b == 9)", 10),
+    ("keyword-of-wrong-type", "fd1", "fd1(1, b == true)", "fd1(1, b == 9)", 10),
+    ("keyword-of-wrong-type", "fd2", 'fd2(1, c == "s")', "fd2(1, c == 9)", 12),
+    ("keyword-of-wrong-type", "fd2", "fd2(1, 5, c == gs)", "fd2(1, 5, c == gm)", 9),
+    ("keyword-of-wrong-type", "fds", "fds(1, s == 4)", 'fds(1, s == "abcd")', 5),
+    ("keyword-of-wrong-type", "fd0", 'fd0(1, b == "s")', "fd0(1, b == 2)", 3),
+    ("positional-of-wrong-type/defaulted-position", "fd1", 'fd1(1, "s")', "fd1(1, 9)", 10),
+    ("positional-of-wrong-type/defaulted-position", "fds", "fds(1, 4)", 'fds(1, "abc")', 4),
+    # --- a non-defaulted argument missing while a defaulted one is given by keyword
+    ("missing-required-argument", "fd1", "fd1(b == 10)", "fd1(1, b == 10)", 11),
+    ("missing-required-argument", "fd2", "fd2(b == 5, c == 7)", "fd2(1, b == 5, c == 7)", 13),
+    ("missing-required-argument", "fd2", "fd2(c == 7)", "fd2(1, c == 7)", 10),
+    ("missing-required-argument", "fd1", "fd1()", "fd1(1)", 3),
+    ("missing-required-argument", "fd0", "fd0(b == 2)", "fd0(1, b == 2)", 3),
+]
+# well-typed call forms that are nobody's twin above: positional / keyword / omitted, in every order
+D_GOOD = [("fd1(1)", 3), ("fd1(1, 5)", 6), ("fd1(b == 3, a == 4)", 7), ("fd2(1)", 33), ("fd2(1, 5)", 36),
+          ("fd2(c == 7, a == 1)", 10), ("fd2(b == 1, a == 1, c == 1)", 3), ("fd0(b == 2, a == 1)", 3),
+          ("fds(1)", 3), ("fds(s == \"a\", a == 1)", 2), ("fd1(gm, b == hm)", 11), ("fd1(idm(gm), b == (if gb then gm else hm))", 6)]
+
+
+def default_cases():
+    cases = []
+    for flavour, defs in D_DEFS.items():
+        for ctx in ("top-level", "function-body"):
+            def forms(call):
+                if ctx == "top-level":
+                    return ["stdout << %s << newline;\n" % call]
+                return ["w(): MI == %s;\n" % call, "stdout << w() << newline;\n"]
+            for cls, fn, bad, good, val in D_CALLS:
+                g, b = forms(good), forms(bad)
+                c = s_case("default:" + cls.split("/")[0], "%s/%s/%s" % (flavour, ctx, cls), defs, g[0], b[0], g[1:],
+                           {"call": bad, "twin": good})
+                c["expect_out"] = "%d\n" % val
+                cases.append(c)
+            for good, val in D_GOOD:
+                g = forms(good)
+                c = s_case("default:well-typed-only", "%s/%s" % (flavour, ctx), defs, g[0], g[0], g[1:], {"call": good})
+                c["expect_out"] = "%d\n" % val
+                c["bad"] = None
+                cases.append(c)
+    return cases
+
+
 TEMPLATES = {"missing-category-export": tmpl_missing_export, "operation-not-in-parameter-category": tmpl_param_op}
 
 
@@ -639,20 +729,32 @@ def run(rep, tier):
 
     # ---- 1. templates: the two catalogue entries without a Coq model
     n_t = 40 if quick else 400
-    cases = template_cases(C.rng("c06-templates"), n_t) + shape_cases()
+    cases = template_cases(C.rng("c06-templates"), n_t) + shape_cases() + default_cases()
 
     def run_case(c):
-        return c, compile_src(aldor, c["good"], base), compile_src(aldor, c["bad"], base)
+        rg = compile_src(aldor, c["good"], base)
+        if c.get("expect_out") is not None and judge_accept(rg) is None:
+            d = "%s/i%d" % (base, next(_uniq))
+            try:
+                ri = mini.run_interp(aldor, c["good"], d)
+            finally:
+                shutil.rmtree(d, ignore_errors=True)
+            if ri["status"] != "ok" or ri["out"] != c["expect_out"]:
+                rg = dict(rg, wrong_value="-ginterp printed %r (status %s), expected %r" % (ri["out"][:200], ri["status"], c["expect_out"]))
+        return c, rg, (compile_src(aldor, c["bad"], base) if c.get("bad") else None)
     t_stats = collections.Counter()
     shape_classes = set()
     with concurrent.futures.ThreadPoolExecutor(C.NCPU) as ex:
         for c, rg, rb in ex.map(run_case, cases):
-            cg, cb = judge_accept(rg), judge_reject(rb, c["ranges"])
+            cg = judge_accept(rg) or ("twin-prints-wrong-value" if rg.get("wrong_value") else None)
+            cb = judge_reject(rb, c["ranges"]) if rb is not None else None
+            if rg.get("wrong_value"):
+                rg = dict(rg, out=rg["out"] + "\n" + rg["wrong_value"])
             t_stats[(c["kind"], "twin-accepted" if cg is None else "twin:" + cg)] += 1
-            t_stats[(c["kind"], "fault-rejected" if cb is None else "fault:" + cb)] += 1
-            if c["kind"].startswith("shape:"):
+            if rb is not None:
+                t_stats[(c["kind"], "fault-rejected" if cb is None else "fault:" + cb)] += 1
+            if c["kind"].startswith(("shape:", "default:")):
                 shape_classes.add((c["kind"], c["params"].get("shape", "").split("/")[0]))
-            if c["kind"].startswith("shape:"):
                 c = dict(c, kind=c["kind"] + " " + c["params"].get("shape", ""))
             if cg:
                 viol.append(("template %s: well-typed twin: %s" % (c["kind"], cg),
@@ -797,6 +899,8 @@ def run(rep, tier):
                     "candidate_sites": dict(sites_cand), "eligible_sites": dict(sites_elig), "sites_run": dict(sites_run),
                     "outcomes": dict(st), "outcomes_per_kind": {"%s/%s" % k: v for k, v in sorted(kinds.items())},
                     "templates": {"%s/%s" % k: v for k, v in sorted(t_stats.items())},
+                    "default_and_keyword_grid": {"cases": sum(1 for c in cases if c["kind"].startswith("default:")),
+                                                 "twins_run_under_ginterp": sum(1 for c in cases if c.get("expect_out") is not None)},
                     "shape_grid": {"cases": sum(1 for c in cases if c["kind"].startswith("shape:")),
                                    "position_classes": sorted("%s %s" % k for k in shape_classes)},
                     "feature_mix(programs containing)": dict(feat.most_common(40)),
@@ -816,6 +920,10 @@ def run(rep, tier):
         "the shape grid (shape_cases: wrong return type x 17 body shapes, wrong argument type / arity x every position of 1..4 "
         "x 4 argument forms x 2 contexts, undefined name x 13 positions, assignment to a constant x 5 positions) is enumerated "
         "in python with a well-typed twin per case; it has no Coq model either and does not depend on the generator",
+        "default_cases: functions / exported domain operations with 0-2 trailing DEFAULTED parameters called with positional, "
+        "keyword and omitted arguments; ill-typed: unknown keyword, keyword twice, keyword + positional for one parameter, too "
+        "many positional arguments, keyword / positional argument of the wrong type, missing required argument; every twin "
+        "must also print its known value under -ginterp; enumerated in python, no Coq model",
         "ambiguous-overload: the second definition alone is legal Aldor; the error is expected at the appended use (last line) "
         "or in the second definition",
         "programs are compiled against the PRE-BUILT libaldor (.al) of /repo; the compiler itself is built from the current tree",
